@@ -595,6 +595,42 @@ func runC20(t *rapid.T, st *vfhelp.Stats, p c20Plan) ([]string, bool, interface{
 		vfhelp.Fail(t, "no-progress-after-import", "proposal after import: %v", err)
 	}
 	labels = append(labels, "imported-and-restarted")
+	// a second restart of the repaired replicas: the imported snapshot is still the
+	// newest record (or has been shrunk by an on-disk state machine); they must come
+	// back with the repaired state plus what was acknowledged since
+	want2 := want + "new=z;"
+	for _, rid := range importers {
+		hostOf[rid].Stop()
+	}
+	for _, rid := range importers {
+		h := hostOf[rid]
+		if err := h.Start(); err != nil {
+			vfhelp.Fail(t, "second-restart-after-import-failed", "NewNodeHost on replica %d: %v", rid, err)
+		}
+		if err := h.StartReplica(spec, nil, false, cfgOf(rid).Config); err != nil {
+			vfhelp.Fail(t, "second-restart-after-import-failed", "StartReplica on replica %d: %v", rid, err)
+		}
+	}
+	for _, rid := range importers {
+		h := hostOf[rid]
+		var v interface{}
+		for dl := time.Now().Add(30 * time.Second); time.Now().Before(dl); {
+			ctx, cancel := context.WithTimeout(context.Background(), 2*time.Second)
+			v, err = h.NH.SyncRead(ctx, shardID, "\x00dump")
+			cancel()
+			if err == nil {
+				break
+			}
+			time.Sleep(25 * time.Millisecond)
+		}
+		if err != nil {
+			vfhelp.Fail(t, "no-progress-after-import", "SyncRead on replica %d after the second restart: %v", rid, err)
+		}
+		if v.(string) != want2 {
+			vfhelp.Fail(t, "state-after-second-restart-differs", "replica %d state %q after the second restart, want %q (exported index %d)", rid, v, want2, index)
+		}
+	}
+	labels = append(labels, "restarted-twice")
 	return labels, nt, sample
 }
 
